@@ -350,13 +350,13 @@ theorem homog_of_pos (top c : F) (hc : 0 < c) :
 
 /-- Field-level `ls_deconvolution` scaling. `top` stands for `f64::INFINITY`; a field has no
 largest element, so the hypothesis says what `+∞` is used for: the sum of squared residuals of
-every grid point, for the signal and for the scaled signal, is `< top` (so that the first grid
-point replaces the initial best in both sweeps). -/
-theorem deconv_scale_field (top c : F) (hc : 0 < c) (b : Bool) (signal resp : List F)
+the *first* grid point, for the signal and for the scaled signal, is `< top` (so that it replaces
+the initial best in both sweeps; from then on only `HomogCore` is needed). -/
+theorem deconv_scale_field_first (top c : F) (hc : 0 < c) (b : Bool) (signal resp : List F)
     (offLo offHi laLo laHi : Nat)
-    (h1 : ∀ p ∈ grid offLo offHi laLo laHi, ∀ res r inp,
+    (h1 : ∀ p, (grid offLo offHi laLo laHi).head? = some p → ∀ res r inp,
       nnGreedy (fieldOps top) b signal resp p.1 p.2 = .ok (res, r, inp) → r < top)
-    (h2 : ∀ p ∈ grid offLo offHi laLo laHi, ∀ res r inp,
+    (h2 : ∀ p, (grid offLo offHi laLo laHi).head? = some p → ∀ res r inp,
       nnGreedy (fieldOps top) b (signal.map (c * ·)) resp p.1 p.2 = .ok (res, r, inp) → r < top) :
     lsDeconvWith (fieldOps top) b (signal.map (c * ·)) resp offLo offHi laLo laHi
       = omap (List.map (c * ·))
@@ -368,8 +368,8 @@ theorem deconv_scale_field (top c : F) (hc : 0 < c) (b : Bool) (signal resp : Li
   | nil => rfl
   | cons p rest =>
     obtain ⟨off, la⟩ := p
-    have h1' := h1 (off, la) (List.mem_cons_self ..)
-    have h2' := h2 (off, la) (List.mem_cons_self ..)
+    have h1' := h1 (off, la) rfl
+    have h2' := h2 (off, la) rfl
     simp only [deconv_scale_nn h] at h2'
     simp only [lsLoop, deconv_scale_nn h]
     cases hnn : nnGreedy (fieldOps top) b signal resp off la with
@@ -385,10 +385,63 @@ theorem deconv_scale_field (top c : F) (hc : 0 < c) (b : Bool) (signal resp : Li
     | err e => rfl
     | panic s => rfl
 
+/-- The same with the hypothesis on every grid point of the two sweeps ("no residual sum reaches
+`+∞`"); a special case of `deconv_scale_field_first`. -/
+theorem deconv_scale_field (top c : F) (hc : 0 < c) (b : Bool) (signal resp : List F)
+    (offLo offHi laLo laHi : Nat)
+    (h1 : ∀ p ∈ grid offLo offHi laLo laHi, ∀ res r inp,
+      nnGreedy (fieldOps top) b signal resp p.1 p.2 = .ok (res, r, inp) → r < top)
+    (h2 : ∀ p ∈ grid offLo offHi laLo laHi, ∀ res r inp,
+      nnGreedy (fieldOps top) b (signal.map (c * ·)) resp p.1 p.2 = .ok (res, r, inp) → r < top) :
+    lsDeconvWith (fieldOps top) b (signal.map (c * ·)) resp offLo offHi laLo laHi
+      = omap (List.map (c * ·))
+          (lsDeconvWith (fieldOps top) b signal resp offLo offHi laLo laHi) :=
+  deconv_scale_field_first top c hc b signal resp offLo offHi laLo laHi
+    (fun p hp => h1 p (List.mem_of_head? hp)) (fun p hp => h2 p (List.mem_of_head? hp))
+
 end field
 
-/-- Non-vacuity: the laws of `HomogCore` hold over `Rat` for the factor `2`. (No `example` of
-the full `Homog` exists over a field: `c²·top = top` forces `top = 0` or `c² = 1`.) -/
+/-! ### A carrier with `+∞`: the full `Homog` is satisfiable non-trivially -/
+
+/-- Adjoin one element `none` standing for `+∞` to a carrier: arithmetic is strict in it, and it
+is larger than everything else. (A coarse stand-in for the IEEE infinities, enough to show that
+the `inf` law is compatible with the others.) -/
+def liftOps {α : Type} (o : Ops α) : Ops (Option α) where
+  zero := some o.zero
+  inf := none
+  sumInit := some o.sumInit
+  add := fun a b => match a, b with | some x, some y => some (o.add x y) | _, _ => none
+  sub := fun a b => match a, b with | some x, some y => some (o.sub x y) | _, _ => none
+  mul := fun a b => match a, b with | some x, some y => some (o.mul x y) | _, _ => none
+  div := fun a b => match a, b with | some x, some y => some (o.div x y) | _, _ => none
+  min := fun a b => match a, b with | some x, some y => some (o.min x y) | _, _ => none
+  lt := fun a b => match a, b with
+    | some x, some y => o.lt x y | some _, none => true | none, _ => false
+  le := fun a b => match a, b with
+    | some x, some y => o.le x y | _, none => true | none, some _ => false
+
+/-- Every `HomogCore` instance extends to a full `Homog` instance on the carrier with `+∞`. -/
+theorem homog_lift {α : Type} {o : Ops α} {σ σ2 : α → α} (h : HomogCore o σ σ2) :
+    Homog (liftOps o) (Option.map σ) (Option.map σ2) where
+  zero := by simp [liftOps, h.zero]
+  sub_mul := by
+    intro a v r
+    cases a <;> cases v <;> cases r <;> simp [liftOps, h.sub_mul]
+  div := by intro a r; cases a <;> cases r <;> simp [liftOps, h.div]
+  min := by intro a b; cases a <;> cases b <;> simp [liftOps, h.min]
+  nonneg := by intro a; cases a <;> simp [liftOps, h.nonneg]
+  sq := by intro a; cases a <;> simp [liftOps, h.sq]
+  add2 := by intro a b; cases a <;> cases b <;> simp [liftOps, h.add2]
+  sumInit := by simp [liftOps, h.sumInit]
+  lt2 := by intro a b; cases a <;> cases b <;> simp [liftOps, h.lt2]
+  inf := rfl
+
+/-- Non-vacuity of `deconv_scale`: rationals with `+∞`, factor `2`. -/
+example : Homog (liftOps (fieldOps (0 : Rat))) (Option.map (2 * ·)) (Option.map (2 * 2 * ·)) :=
+  homog_lift (homog_of_pos 0 2 (by decide))
+
+/-- Non-vacuity: the laws of `HomogCore` hold over `Rat` for the factor `2`. (The full `Homog` cannot
+hold over a field itself for `c² ≠ 1`, `top ≠ 0`: it would say `c²·top = top`.) -/
 example : HomogCore (fieldOps (1000 : Rat)) (2 * ·) (2 * 2 * ·) :=
   homog_of_pos 1000 2 (by decide)
 
